@@ -58,9 +58,11 @@ Section Faults.
   (* the filesystem part, as a predicate on the filesystem alone *)
   Definition Blob (s : fs) (c : bytes) : Prop :=
     exists f, fget s (cas_path (H c)) = Some f /\ fdata f = c.
+  (* the same three clauses as StoreInv.dirs_ok (third one: well-formed hashes only) *)
   Definition DirsOK (pre : bool) (s : fs) : Prop :=
     has_dir s [s_staging] = true /\ has_dir s [s_cas] = true /\
-    (pre = true -> forall h, length h = 32%nat -> parent_ok s (cas_path h) = true).
+    (pre = true -> forall h, length h = 32%nat -> Forall (fun x => x < 256) h ->
+                    parent_ok s (cas_path h) = true).
   Definition FsF (pre : bool) (cs : list bytes) (s : fs) : Prop :=
     (forall c, In c cs -> Blob s c) /\ DirsOK pre s.
 
@@ -87,7 +89,7 @@ Section Faults.
   Proof.
     intros pre c s s' (D1 & D2 & D3) E.
     split; [exact (has_dir_keeps _ c _ _ D1 E)|]. split; [exact (has_dir_keeps _ c _ _ D2 E)|].
-    intros Pp h Lh. specialize (D3 Pp h Lh). unfold parent_ok in *.
+    intros Pp h Lh Bh. specialize (D3 Pp h Lh Bh). unfold parent_ok in *.
     cbn [cas_path parent_dir] in *. exact (has_dir_keeps _ c _ _ D3 E).
   Qed.
 
